@@ -1,6 +1,301 @@
 import Proofs.Lemmas.Collapse
 import Proofs.Lemmas.Concat
 import Proofs.Audit
+
+/-!
+# C13 — compact collocation data stay consistent under expand, collapse and concat
+
+Property theorems only (helper lemmas live in `Proofs/Lemmas/{Compact,Collapse,Concat}.lean`).
+All statements hold for arbitrary pair lists (any length, any order, duplicates,
+one-to-many and many-to-one), arbitrary stored rows (`none` = NaN, any number of
+flattened extra-dimension entries) and arbitrary lists of datasets.
+-/
+
 open Compact
-theorem C13_stub (c : Compact.Compact) : swap (swap c) = c := swap_swap c
-assert_axioms C13_stub
+
+/-! ## compaction (`Collocator._create_return`) -/
+
+/-- **C13_compact_valid** — whatever original index pairs the search delivers, the compact
+result has indices in range, every stored point takes part in at least one pair, there is
+one new pair per original pair, and no point is stored twice (`P.length` = number of
+distinct original primary indices, same for `S`). -/
+theorem C13_compact_valid (op : List (Nat × Nat)) (P0 S0 : List Row) (c : Compact.Compact)
+    (h : compactify op P0 S0 = .ok (some c)) :
+    Valid c ∧ c.pairs.length = op.length ∧
+    c.P.length = (uniq (op.map Prod.fst)).length ∧ c.S.length = (uniq (op.map Prod.snd)).length := by
+  simp only [compactify] at h
+  split at h
+  · simp at h
+  · split at h
+    · rename_i P S hP hS
+      simp only [Except.ok.injEq, Option.some.injEq] at h
+      subst h
+      have lP := gather_length hP
+      have lS := gather_length hS
+      refine ⟨⟨?_, ?_, ?_⟩, by simp, lP, lS⟩
+      · intro p hp
+        simp only [List.mem_map] at hp
+        obtain ⟨q, hq, rfl⟩ := hp
+        simp only [lP, lS]
+        exact ⟨List.idxOf_lt_length_of_mem (mem_uniq.mpr (List.mem_map.mpr ⟨q, hq, rfl⟩)),
+               List.idxOf_lt_length_of_mem (mem_uniq.mpr (List.mem_map.mpr ⟨q, hq, rfl⟩))⟩
+      · intro i hi
+        simp only [lP] at hi
+        have hm : (uniq (op.map Prod.fst))[i] ∈ op.map Prod.fst := mem_uniq.mp (List.getElem_mem hi)
+        obtain ⟨q, hq, e⟩ := List.mem_map.mp hm
+        refine ⟨_, List.mem_map.mpr ⟨q, hq, rfl⟩, ?_⟩
+        simp only [e]
+        exact (nodup_uniq _).idxOf_getElem i hi
+      · intro i hi
+        simp only [lS] at hi
+        have hm : (uniq (op.map Prod.snd))[i] ∈ op.map Prod.snd := mem_uniq.mp (List.getElem_mem hi)
+        obtain ⟨q, hq, e⟩ := List.mem_map.mp hm
+        refine ⟨_, List.mem_map.mpr ⟨q, hq, rfl⟩, ?_⟩
+        simp only [e]
+        exact (nodup_uniq _).idxOf_getElem i hi
+    · simp at h
+
+/-- **C13_compact_total** — with original indices inside the data and at least one pair,
+the compaction succeeds (no IndexError, not the empty result). -/
+theorem C13_compact_total (op : List (Nat × Nat)) (P0 S0 : List Row) (hne : op ≠ [])
+    (h : ∀ p ∈ op, p.1 < P0.length ∧ p.2 < S0.length) :
+    ∃ c, compactify op P0 S0 = .ok (some c) := by
+  obtain ⟨P, hP⟩ := gather_isSome (data := P0) (idx := uniq (op.map Prod.fst)) (by
+    intro i hi
+    obtain ⟨q, hq, e⟩ := List.mem_map.mp (mem_uniq.mp hi)
+    exact e ▸ (h q hq).1)
+  obtain ⟨S, hS⟩ := gather_isSome (data := S0) (idx := uniq (op.map Prod.snd)) (by
+    intro i hi
+    obtain ⟨q, hq, e⟩ := List.mem_map.mp (mem_uniq.mp hi)
+    exact e ▸ (h q hq).2)
+  have : op.isEmpty = false := by cases op <;> simp_all
+  exact ⟨_, by simp only [compactify, this, hP, hS]; rfl⟩
+
+/-- **C13_compact_expand** — compaction loses nothing: expanding the compact result gives,
+pair by pair, the values of the original points of that pair. -/
+theorem C13_compact_expand (op : List (Nat × Nat)) (P0 S0 : List Row) (c : Compact.Compact)
+    (h : compactify op P0 S0 = .ok (some c)) :
+    expand c = gp P0 S0 op := by
+  simp only [compactify] at h
+  split at h
+  · simp at h
+  · split at h
+    · rename_i P S hP hS
+      simp only [Except.ok.injEq, Option.some.injEq] at h
+      subst h
+      rw [expand_eq_gp]
+      simp only
+      -- only the membership of the original indices in `op` matters
+      have key : ∀ l : List (Nat × Nat), (∀ q ∈ l, q ∈ op) →
+          gp P S (l.map fun p => ((uniq (op.map Prod.fst)).idxOf p.1, (uniq (op.map Prod.snd)).idxOf p.2))
+            = gp P0 S0 l := by
+        intro l hl
+        induction l with
+        | nil => rfl
+        | cons q qs ih =>
+          have hq := hl q (List.mem_cons_self ..)
+          have m1 : q.1 ∈ uniq (op.map Prod.fst) := mem_uniq.mpr (List.mem_map.mpr ⟨q, hq, rfl⟩)
+          have m2 : q.2 ∈ uniq (op.map Prod.snd) := mem_uniq.mpr (List.mem_map.mpr ⟨q, hq, rfl⟩)
+          have e1 : P[(uniq (op.map Prod.fst)).idxOf q.1]? = P0[q.1]? := by
+            rw [gather_getElem? hP, List.getElem?_eq_getElem (List.idxOf_lt_length_of_mem m1)]
+            simp [List.getElem_idxOf]
+          have e2 : S[(uniq (op.map Prod.snd)).idxOf q.2]? = S0[q.2]? := by
+            rw [gather_getElem? hS, List.getElem?_eq_getElem (List.idxOf_lt_length_of_mem m2)]
+            simp [List.getElem_idxOf]
+          simp only [List.map_cons, gp, e1, e2, ih (fun x hx => hl x (List.mem_cons_of_mem _ hx))]
+      exact key op (fun _ h => h)
+    · simp at h
+
+/-! ## row assignment (`_rows_for_secondaries`) -/
+
+/-- **C13_rows_injective** — for a valid dataset the row loop succeeds; `rows k` is the
+number of earlier pairs with the same reference point, it stays below the multiplicity of
+that reference point, and `k ↦ (rows k, ref k)` is injective: the bin matrix is filled
+without collision and without leaving its `max rows + 1` rows. -/
+theorem C13_rows_injective (c : Compact.Compact) (hv : Valid c) :
+    ∃ r, rows (refs c) = some r ∧ r.length = c.pairs.length ∧
+      (∀ k (hk : k < (refs c).length),
+          r[k]? = some (((refs c).take k).count (refs c)[k]) ∧
+          ((refs c).take k).count (refs c)[k] < (refs c).count (refs c)[k]) ∧
+      (∀ k l (hk : k < (refs c).length) (hl : l < (refs c).length),
+          r[k]? = r[l]? → (refs c)[k] = (refs c)[l] → k = l) := by
+  have hb : ∀ x ∈ refs c, x < (refs c).length := by
+    intro x hx
+    obtain ⟨p, hp, e⟩ := List.mem_map.mp hx
+    have := (hv.1 p hp).1
+    have := valid_P_le_pairs hv
+    simp only [refs, List.length_map]
+    omega
+  obtain ⟨r, hr, hl, hs⟩ := rows_spec (refs c) hb
+  refine ⟨r, hr, by simpa [refs] using hl, ?_, ?_⟩
+  · intro k hk
+    exact ⟨hs k hk, count_take_lt_count _ k hk⟩
+  · intro k l hk hl' he hx
+    rw [hs k hk, hs l hl'] at he
+    exact count_take_injective _ k l hk hl' hx (Option.some.inj he)
+
+/-! ## collapse -/
+
+/-- **C13_collapse_spec** — on a valid dataset with at least one pair `collapse` succeeds,
+copies the reference group unchanged, returns one row per stored reference point, and the
+statistics of reference point `j`, flattened extra-dimension entry `ch`, are count / sum /
+sum of squares over the non-NaN values of exactly the partner points of `j`
+(`mean`, `var` are functions of these three, see `C13_mean_var`). -/
+theorem C13_collapse_spec (c : Compact.Compact) (w : Nat) (hv : Valid c) (hne : c.pairs ≠ []) :
+    ∃ o, collapse c w = .ok o ∧ o.ref = c.P ∧ o.stats.length = c.P.length ∧
+      ∀ j, j < c.P.length → ∀ ch, ch < w →
+        (o.stats[j]?).bind (·[ch]?) = some (stat ((partners c j).map (chan ch))) := by
+  obtain ⟨rs, hrs, -, -, -⟩ := C13_rows_injective c hv
+  obtain ⟨vals, hvals⟩ := gather_isSome (data := c.S) (idx := secs c) (by
+    intro i hi
+    obtain ⟨p, hp, e⟩ := List.mem_map.mp hi
+    exact e ▸ (hv.1 p hp).2)
+  have hu := valid_uniq_refs hv
+  have hany : (refs c).any (fun x => decide ((uniq (refs c)).length ≤ x)) = false := by
+    rw [List.any_eq_false]
+    intro x hx
+    obtain ⟨p, hp, e⟩ := List.mem_map.mp hx
+    have := (hv.1 p hp).1
+    simp only [decide_eq_true_eq, hu]
+    omega
+  have hemp : (refs c).isEmpty = false := by
+    cases hc : c.pairs with
+    | nil => exact absurd hc hne
+    | cons a l => simp [refs, hc]
+  have hlen : vals.length = (refs c).length := by
+    rw [gather_length hvals]; simp [refs, secs]
+  rw [hu] at hany
+  refine ⟨_, by simp only [collapse, hemp, hrs, hvals, hu, hany, Bool.false_eq_true, if_false, ne_eq,
+    not_true_eq_false]; rfl, rfl, by simp, ?_⟩
+  intro j hj ch hch
+  simp only [List.getElem?_map, List.getElem?_range hj, Option.map_some, Option.bind_some,
+    List.getElem?_range hch]
+  congr 1
+  apply stat_congr
+  rw [filterMap_cellChan, column_filterMap (refs c) rs vals j hrs hlen]
+  congr 2
+  exact partners_eq c.pairs c.S vals j hvals
+
+/-- **C13_collapse_spec_second_reference** — `reference=<second group>` is the same
+statement for the swapped dataset, which is valid whenever the dataset is. -/
+theorem C13_collapse_spec_second_reference (c : Compact.Compact) (w : Nat) (hv : Valid c)
+    (hne : c.pairs ≠ []) :
+    ∃ o, collapse (swap c) w = .ok o ∧ o.ref = c.S ∧ o.stats.length = c.S.length ∧
+      ∀ j, j < c.S.length → ∀ ch, ch < w →
+        (o.stats[j]?).bind (·[ch]?) = some (stat ((partners (swap c) j).map (chan ch))) :=
+  C13_collapse_spec (swap c) w (valid_swap hv) (by cases h : c.pairs <;> simp_all [swap])
+
+/-- the partners of `j` after the swap are the primary points paired with secondary `j` -/
+theorem C13_partners_swap (c : Compact.Compact) (j : Nat) :
+    partners (swap c) j = (c.pairs.filter (fun p => p.2 == j)).filterMap (fun p => c.P[p.1]?) := by
+  unfold partners swap
+  simp only [List.filter_map, List.filterMap_map]
+  rfl
+
+/-- **C13_mean_var** — the derived statistics: with `n > 0` non-NaN values `xs`, the model's
+`mean` is `Σx / n` and its `var` (`= np.nanstd²`) is the mean squared deviation from the
+mean, `Σ(x - mean)² / n`; with `n = 0` both are NaN. -/
+theorem C13_mean_var (vs : List Val) :
+    let xs := vs.filterMap id
+    let s := stat vs
+    (xs = [] → s.mean = none ∧ s.var = none) ∧
+    (xs ≠ [] → s.mean = some ((xs.sum : ℚ) / xs.length) ∧
+      s.var = some (((xs.map (fun (x : Int) => ((x : ℚ) - (xs.sum : ℚ) / xs.length) ^ 2)).sum) / xs.length)) := by
+  intro xs s
+  constructor
+  · intro h
+    have : s.count = 0 := by show xs.length = 0; rw [h]; rfl
+    simp [Stat.mean, Stat.var, this]
+  · intro h
+    have hc : s.count = xs.length := rfl
+    have hpos : xs.length ≠ 0 := by simpa using h
+    have hs : s.sum = xs.sum := rfl
+    have hq : s.sumsq = (xs.map (fun x => x * x)).sum := rfl
+    have hn : (xs.length : ℚ) ≠ 0 := by exact_mod_cast hpos
+    refine ⟨by simp [Stat.mean, hc, hpos, hs], ?_⟩
+    simp only [Stat.var, hc, hpos, if_false, hs, hq, Option.some.injEq]
+    -- Σ (x - m)² = Σ x² - 2 m Σ x + n m²
+    have expand_sq : ∀ (l : List Int) (m : ℚ),
+        (l.map (fun (x : Int) => ((x : ℚ) - m) ^ 2)).sum =
+          (((l.map (fun x => x * x)).sum : Int) : ℚ) - 2 * m * ((l.sum : Int) : ℚ) + l.length * m ^ 2 := by
+      intro l m
+      induction l with
+      | nil => simp
+      | cons a l ih =>
+        simp only [List.map_cons, List.sum_cons, ih, List.length_cons]
+        push_cast
+        ring
+    rw [expand_sq]
+    field_simp
+    ring
+
+/-! ## expand -/
+
+/-- **C13_expand_spec** — on a valid dataset `expand` succeeds and returns one row per
+pair carrying exactly the primary and the secondary values of that pair. -/
+theorem C13_expand_spec (c : Compact.Compact) (hv : Valid c) :
+    ∃ e, expand c = some e ∧ e.length = c.pairs.length ∧
+      ∀ k (hk : k < c.pairs.length),
+        e[k]? = some (c.P[c.pairs[k].1]'(hv.1 _ (List.getElem_mem hk)).1,
+                      c.S[c.pairs[k].2]'(hv.1 _ (List.getElem_mem hk)).2) := by
+  rw [expand_eq_gp]
+  exact gp_spec c.P c.S c.pairs hv.1
+
+/-- an index outside the stored points is an IndexError, never a silently wrong row -/
+theorem C13_expand_error (c : Compact.Compact)
+    (h : ∃ p ∈ c.pairs, c.P.length ≤ p.1 ∨ c.S.length ≤ p.2) : expand c = none := by
+  rw [expand_eq_gp]; exact gp_none _ _ _ h
+
+/-! ## concat -/
+
+/-- **C13_concat_expand** — `expand (concat ds) = (ds.map expand).flatten` for every list
+of datasets with in-range indices (in particular valid ones). -/
+theorem C13_concat_expand (ds : List Compact.Compact) (h : ∀ d ∈ ds, Valid d) :
+    ∃ es, expandAll ds = some es ∧ expand (concat ds) = some es.flatten := by
+  obtain ⟨es, h1, h2⟩ := gp_concatGo ds [] [] (fun d hd => (h d hd).inRange)
+  exact ⟨es, h1, by rw [expand_eq_gp]; simpa [concat] using h2⟩
+
+/-- **C13_concat_valid** — the concatenation of valid datasets is valid; it stores the
+concatenated points and has one pair per input pair. -/
+theorem C13_concat_valid (ds : List Compact.Compact) (h : ∀ d ∈ ds, Valid d) :
+    Valid (concat ds) ∧ (concat ds).pairs.length = (ds.map (·.pairs.length)).sum ∧
+    (concat ds).P = (ds.map (·.P)).flatten ∧ (concat ds).S = (ds.map (·.S)).flatten :=
+  ⟨validOff_zero.mp (validOff_concatGo ds 0 0 h), concatGo_lengths ds 0 0⟩
+
+/-! ## non-vacuity -/
+
+/-- one-to-many (primary 0 ↦ secondaries 0, 2, 1) and many-to-one (secondary 1 ↤ primaries
+1, 0), unsorted pair order, a NaN value -/
+def exA : Compact.Compact :=
+  { pairs := [(1, 1), (0, 0), (0, 2), (0, 1)], P := [[some 10], [some 11]],
+    S := [[some 5], [some 7], [none]] }
+
+/-- many-to-one only, two channels -/
+def exB : Compact.Compact :=
+  { pairs := [(2, 0), (0, 0), (1, 0)], P := [[some 1, none], [some 2, some 3], [some 4, some 5]],
+    S := [[some 9, some 8]] }
+
+example : Valid exA := by decide
+example : Valid exB := by decide
+example : Valid (swap exA) := valid_swap (by decide)
+example : exA.pairs ≠ [] := by decide
+-- hypotheses of C13_compact_valid / C13_compact_expand are satisfiable, duplicates included
+example : compactify [(7, 3), (2, 3), (7, 9), (7, 3)] (List.replicate 8 [some 1]) (List.replicate 10 [none])
+    = .ok (some { pairs := [(0, 0), (1, 0), (0, 1), (0, 0)], P := [[some 1], [some 1]], S := [[none], [none]] }) := by
+  decide
+-- the conclusions are not trivial on these instances
+example : rows (refs exA) = some [0, 0, 1, 2] := by decide
+example : (collapse exA 1).toOption.map (·.stats) = some [[⟨2, 12, 74⟩], [⟨1, 7, 49⟩]] := by decide
+example : (collapse (swap exB) 2).toOption.map (·.stats) = some [[⟨3, 7, 21⟩, ⟨2, 8, 34⟩]] := by decide
+example : expand (concat [exA, exA]) = (expandAll [exA, exA]).map List.flatten := by decide
+example : Valid (concat [exA, swap exA]) := by decide
+-- without aliasing the in-place model coincides with `concat`; passing the same object twice
+-- double-shifts both copies (the observation recorded in DESIGN §6, outside the property)
+example : concatAliased [exA, swap exA] [0, 1] = concat [exA, swap exA] := by decide
+example : (concatAliased [exA] [0, 0]).pairs = shift 2 3 exA.pairs ++ shift 2 3 exA.pairs := by decide
+example : (stat [some 1, none, some 3]).mean = some 2 ∧ (stat [some 1, none, some 3]).var = some 1 := by
+  constructor <;> simp [stat, Stat.mean, Stat.var] <;> norm_num
+
+assert_axioms C13_compact_valid C13_compact_total C13_compact_expand C13_rows_injective
+  C13_collapse_spec C13_collapse_spec_second_reference C13_partners_swap C13_mean_var
+  C13_expand_spec C13_expand_error C13_concat_expand C13_concat_valid
